@@ -222,7 +222,8 @@ func c11BuildTemplates(t *testing.T, root string) map[string]*c11Tmpl {
 
 type c11Reader struct {
 	snap int    // index into the template's ids
-	kind string // rc | rcc | slow | edge | stall | stall-late
+	kind string // rc | rcc | slow | edge | stall | stall-late | read-stall | oc
+	then string // kind of a second stream the same consumer opens on the same snapshot once the first one is done ("" = none)
 }
 
 type c11Scn struct {
@@ -240,29 +241,35 @@ type c11Scn struct {
 func c11Scenarios() []c11Scn {
 	return []c11Scn{
 		// explicit reap that only removes the older snapshot; the reader streams that older snapshot
-		{name: "remove/rc+reap", tmpl: "older,full", readers: []c11Reader{{0, "rc"}}, reapers: []string{"once"}, early: true, devQ: 2, devT: 4},
+		{name: "remove/rc+reap", tmpl: "older,full", readers: []c11Reader{{snap: 0, kind: "rc"}}, reapers: []string{"once"}, early: true, devQ: 2, devT: 4},
 		// explicit reap that checkpoints the WAL into the database file IN PLACE, rewrites meta, removes and renames
-		{name: "rewrite/rc+reap", tmpl: "full,inc1", readers: []c11Reader{{1, "rc"}}, reapers: []string{"once"}, early: true, devQ: 2, devT: 4},
+		{name: "rewrite/rc+reap", tmpl: "full,inc1", readers: []c11Reader{{snap: 1, kind: "rc"}}, reapers: []string{"once"}, early: true, devQ: 2, devT: 4},
 		// double Close against a reap that is retried until it gets the lock
-		{name: "remove/rcc+retry", tmpl: "older,full", readers: []c11Reader{{0, "rcc"}}, reapers: []string{"retry"}, devQ: 3, devT: 5},
+		{name: "remove/rcc+retry", tmpl: "older,full", readers: []c11Reader{{snap: 0, kind: "rcc"}}, reapers: []string{"retry"}, devQ: 3, devT: 5},
 		// a stalled stream: only the idle timer can release the hold
-		{name: "remove/stall+retry", tmpl: "older,full", readers: []c11Reader{{0, "stall"}}, reapers: []string{"retry"}, devQ: 3, devT: 5},
+		{name: "remove/stall+retry", tmpl: "older,full", readers: []c11Reader{{snap: 0, kind: "stall"}}, reapers: []string{"retry"}, devQ: 3, devT: 5},
 		// the stalled consumer comes back after the force-close: Read must fail, Close is a second close
-		{name: "rewrite/stall-late+retry", tmpl: "full,inc1", readers: []c11Reader{{1, "stall-late"}}, reapers: []string{"retry"}, devQ: 3, devT: 5},
+		{name: "rewrite/stall-late+retry", tmpl: "full,inc1", readers: []c11Reader{{snap: 1, kind: "stall-late"}}, reapers: []string{"retry"}, devQ: 3, devT: 5},
 		// the reader's Close and the idle timer become runnable at the same instant
-		{name: "remove/edge+retry", tmpl: "older,full", readers: []c11Reader{{0, "edge"}}, reapers: []string{"retry"}, devQ: 3, devT: 4},
+		{name: "remove/edge+retry", tmpl: "older,full", readers: []c11Reader{{snap: 0, kind: "edge"}}, reapers: []string{"retry"}, devQ: 3, devT: 4},
 		// a slow but live reader: the timer must be re-armed, not fire
-		{name: "remove/slow+retry", tmpl: "older,full", readers: []c11Reader{{0, "slow"}}, reapers: []string{"retry"}, devQ: 3, devT: 5},
+		{name: "remove/slow+retry", tmpl: "older,full", readers: []c11Reader{{snap: 0, kind: "slow"}}, reapers: []string{"retry"}, devQ: 3, devT: 5},
 		// background reaper (blocking writer) woken by a full sink's Close
-		{name: "bg-remove/create-full+rc", tmpl: "older+create-full", readers: []c11Reader{{0, "rc"}}, creator: "full", threshold: 2, devQ: 2, devT: 4},
+		{name: "bg-remove/create-full+rc", tmpl: "older+create-full", readers: []c11Reader{{snap: 0, kind: "rc"}}, creator: "full", threshold: 2, devQ: 2, devT: 4},
 		// background reaper blocked behind a stalled stream
-		{name: "bg-remove/create-full+stall", tmpl: "older+create-full", readers: []c11Reader{{0, "stall"}}, creator: "full", threshold: 2, devQ: 2, devT: 4},
+		{name: "bg-remove/create-full+stall", tmpl: "older+create-full", readers: []c11Reader{{snap: 0, kind: "stall"}}, creator: "full", threshold: 2, devQ: 2, devT: 4},
 		// background reaper that rewrites the database the reader streams, woken by an incremental sink's Close
-		{name: "bg-rewrite/create-inc+rc", tmpl: "full+create-inc", readers: []c11Reader{{0, "rc"}}, creator: "inc", threshold: 2, devQ: 2, devT: 4},
+		{name: "bg-rewrite/create-inc+rc", tmpl: "full+create-inc", readers: []c11Reader{{snap: 0, kind: "rc"}}, creator: "inc", threshold: 2, devQ: 2, devT: 4},
+		// a consumer that read once and then stalled: the idle timer's first expiry must re-arm it (explicit reap retried / background reaper blocked)
+		{name: "remove/read-stall+retry", tmpl: "older,full", readers: []c11Reader{{snap: 0, kind: "read-stall"}}, reapers: []string{"retry"}, devQ: 3, devT: 5},
+		{name: "bg-remove/create-full+read-stall", tmpl: "older+create-full", readers: []c11Reader{{snap: 0, kind: "read-stall"}}, creator: "full", threshold: 2, devQ: 2, devT: 4},
+		// the background reaper is parked behind a first stream; its consumer closes it and opens a second one before the woken reaper has run
+		{name: "bg-remove/create-full+oc,rc", tmpl: "older+create-full", readers: []c11Reader{{snap: 0, kind: "oc", then: "rc"}}, creator: "full", threshold: 2, devQ: 2, devT: 4},
+		{name: "bg-rewrite/create-inc+oc,rc", tmpl: "full+create-inc", readers: []c11Reader{{snap: 0, kind: "oc", then: "rc"}}, creator: "inc", threshold: 2, devQ: 2, devT: 3},
 		// two streams (reader count 2 -> 0), one of them stalled, explicit reap retried
-		{name: "remove/rc+stall+retry", tmpl: "older,full", readers: []c11Reader{{0, "rc"}, {0, "stall"}}, reapers: []string{"retry"}, devQ: 2, devT: 4},
+		{name: "remove/rc+stall+retry", tmpl: "older,full", readers: []c11Reader{{snap: 0, kind: "rc"}, {snap: 0, kind: "stall"}}, reapers: []string{"retry"}, devQ: 2, devT: 4},
 		// background and explicit reaper together against one reader
-		{name: "bg-remove/create-full+rc+reap", tmpl: "older+create-full", readers: []c11Reader{{0, "rc"}}, reapers: []string{"once"}, creator: "full", threshold: 2, devQ: 1, devT: 2},
+		{name: "bg-remove/create-full+rc+reap", tmpl: "older+create-full", readers: []c11Reader{{snap: 0, kind: "rc"}}, reapers: []string{"once"}, creator: "full", threshold: 2, devQ: 1, devT: 2},
 	}
 }
 
@@ -471,6 +478,16 @@ func (x *c11Exec) reader(st *c11Stream) {
 		x.closeStream(st)
 	case "stall":
 		// never read, never closed
+	case "read-stall":
+		// reads once inside the first idle window, then stalls for good: the first
+		// timer expiry finds idle < timeout, so the force-close depends on the re-arm
+		time.Sleep(c11Timeout * 3 / 10)
+		vs.Point("c11:reader:woke", "c11:fs")
+		x.read(st, half)
+		x.step(st, "after the only read")
+	case "oc":
+		// opened and closed at once (the consumer's first stream; see c11Reader.then)
+		x.closeStream(st)
 	case "stall-late":
 		time.Sleep(c11Timeout * 3 / 2)
 		vs.Point("c11:reader:woke", "c11:fs")
@@ -680,9 +697,21 @@ func c11Body(sc *c11Scn, env *c11Env) vs.Body {
 			return out
 		}
 		for i, rd := range sc.readers {
-			st := &c11Stream{idx: i, id: tm.ids[rd.snap], kind: rd.kind}
+			st := &c11Stream{idx: len(x.streams), id: tm.ids[rd.snap], kind: rd.kind}
 			x.streams = append(x.streams, st)
-			s.Go(fmt.Sprintf("reader%d:%s", i, rd.kind), func() { x.reader(st) })
+			var st2 *c11Stream
+			if rd.then != "" {
+				st2 = &c11Stream{idx: len(x.streams), id: st.id, kind: rd.then}
+				x.streams = append(x.streams, st2)
+			}
+			s.Go(fmt.Sprintf("reader%d:%s", i, rd.kind+rd.then), func() {
+				x.reader(st)
+				if st2 != nil {
+					// no scheduling point between the Close of the first stream and the
+					// Open of the second: a writer woken by that Close has not run yet
+					x.reader(st2)
+				}
+			})
 		}
 		for i, k := range sc.reapers {
 			s.Go(fmt.Sprintf("reaper%d:%s", i, k), func() { x.reaper(k) })
